@@ -55,6 +55,7 @@ def extra_checks(rep, pid, ledger, known):
                 why.append("the view keeps the read buffer (_buf) it inherited from the active image")
     except Unsupported as e:
         rep.unsupported.append(f"{name}: unsupported({e})")
+        _histories(rep)  # the bounded block speaks when the proof part cannot
         return
     rep.functions.append({"function": f"{FILE}:QCow2Snapshot.open", "contract": "copy of the image with the snapshot's L1 table and a reset stream buffer", "props": ["C07", "C08"]})
     ok = not why
@@ -103,7 +104,10 @@ def _image(rng):
     n = rng.randint(1, 6)
     nsnap = rng.randint(1, 2)
     layers = nsnap + 1  # layer 0 = active
-    img = bytearray((40 + layers * (n + 2)) * cs)
+    # sometimes the active image has grown since the snapshots were taken: two L1 entries (the second L2 table holds `n2` more clusters
+    # behind the 64 of the first), while every snapshot still has an L1 table of one entry -- beyond it a snapshot view reads zeros
+    n2 = rng.randint(1, 4) if rng.random() < 0.5 else 0
+    img = bytearray((48 + layers * (n + 2) + n2 + 2) * cs)
     pos = 8
 
     def alloc(k=1):
@@ -132,16 +136,33 @@ def _image(rng):
                 if kind == "zero":
                     struct.pack_into(">Q", img, l2 + 8 * g, 1)
                 data.append(b"\0" * cs)
-        content.append(b"".join(data))
+        layer_bytes = b"".join(data)
+        if n2:
+            layer_bytes = layer_bytes.ljust(64 * cs, b"\0")  # the rest of the first L2 table is unallocated
+            tail = []
+            if layer == 0:
+                l2b = alloc()
+                struct.pack_into(">Q", img, l1 + 8, l2b | (1 << 63))
+                for g in range(n2):
+                    d = alloc()
+                    byte = 0xA0 + g
+                    img[d:d + cs] = bytes([byte]) * cs
+                    struct.pack_into(">Q", img, l2b + 8 * g, d | (1 << 63))
+                    tail.append(bytes([byte]) * cs)
+            else:
+                tail = [b"\0" * cs] * n2
+            layer_bytes += b"".join(tail)
+        content.append(layer_bytes)
     snap_off = alloc(2)
     blob = b""
     for sidx in range(nsnap):
         e = struct.pack(">QIHHIIQII", l1_offs[sidx + 1], 1, 1, 1, 0, 0, 0, 0, 0) + str(sidx + 1).encode() + b"s"
         blob += e + b"\0" * (-len(e) % 8)
     img[snap_off:snap_off + len(blob)] = blob
-    hdr = struct.pack(">IIQIIQIIQQIIQ", 0x514649FB, 3, 0, 0, 9, n * cs, 0, 1, l1_offs[0], 1 * cs, 1, nsnap, snap_off) + struct.pack(">QQQII", 0, 0, 0, 4, 104)
+    size = (64 + n2) * cs if n2 else n * cs
+    hdr = struct.pack(">IIQIIQIIQQIIQ", 0x514649FB, 3, 0, 0, 9, size, 0, 2 if n2 else 1, l1_offs[0], 1 * cs, 1, nsnap, snap_off) + struct.pack(">QQQII", 0, 0, 0, 4, 104)
     img[0:len(hdr)] = hdr
-    return bytes(img), content, n * cs
+    return bytes(img), content, size
 
 
 def _histories(rep):
